@@ -23,6 +23,7 @@ RULES = {
     'C11.d': 'the in-place update of a key record is a single write call',
     'C11.e': 'every file suffix the snapshot leaves behind is opened by the loader',
     'C11.f': 'the loader of the data files has no unwrap / expect / index that a short or garbled file can trigger',
+    'C11.g': 'the addresses the in-place key update writes at are right: the key-file size is measured after the reclaiming rename (C06.g), the loader advances its running offset for every record (C06.h), the writer records an offset before it advances it (C06.i)',
 }
 
 
